@@ -1,58 +1,81 @@
 import VaxisModel.Lemmas.DynList
 
-/-! Invariants of vxfw/list `Dynamic` over whole histories (gap 0, fixed builder). -/
+/-! Invariants of vxfw/list `Dynamic` over whole histories (any gap ≥ 0, the Builder's items may be
+    replaced between operations). -/
 namespace VaxisModel.Lemmas.DynList
 open VaxisModel.Model.DynList
 
-/-- A child covers row 0 of the viewport. -/
-def Covers (c : Child) : Prop := c.row ≤ 0 ∧ 0 < c.row + (c.height : Int)
+/-- A child (with the gap below it) covers row 0 of the viewport. -/
+def Covers (g : Int) (c : Child) : Prop := c.row ≤ 0 ∧ 0 < c.row + (c.height : Int) + g
 
-instance (c : Child) : Decidable (Covers c) := by unfold Covers; exact inferInstance
+instance (g : Int) (c : Child) : Decidable (Covers g c) := by unfold Covers; exact inferInstance
 
-theorem retop_none : ∀ (cs : List Child) (i : Nat) (acc : Nat × Int),
-    (∀ c ∈ cs, ¬ Covers c) → retop cs i acc = acc
+/-- In a contiguous list with a non-negative gap, a later child starts at or below the end of the
+    first child plus the gap. -/
+theorem contig_get_gap {gap : Int} (hg : 0 ≤ gap) : ∀ (cs : List Child) (f : Child), Contig gap (f :: cs) →
+    ∀ (m : Nat) (c : Child), (f :: cs)[m]? = some c → 1 ≤ m → f.row + (f.height : Int) + gap ≤ c.row := by
+  intro cs
+  induction cs with
+  | nil =>
+    intro f _ m c hm h1
+    cases m with
+    | zero => omega
+    | succ k => simp at hm
+  | cons d rest ih =>
+    intro f hc m c hm h1
+    cases m with
+    | zero => omega
+    | succ k =>
+      have hm' : (d :: rest)[k]? = some c := by simpa using hm
+      obtain ⟨l1, l2⟩ := hc.1
+      by_cases hk : k = 0
+      · subst hk; simp at hm'; subst hm'; omega
+      · have := ih d hc.2 k c hm' (by omega); omega
+
+theorem retop_none (g : Int) : ∀ (cs : List Child) (i : Nat) (acc : Nat × Int),
+    (∀ c ∈ cs, ¬ Covers g c) → retop g cs i acc = acc
   | [], _, _, _ => rfl
   | c :: cs, i, (top, off), h => by
-    have hc : ¬ (c.row ≤ 0 ∧ c.row + (c.height : Int) > 0) := by
+    have hc : ¬ (c.row ≤ 0 ∧ c.row + (c.height : Int) + g > 0) := by
       have := h c List.mem_cons_self; unfold Covers at this; omega
     simp only [retop, hc, if_false]
-    exact retop_none cs (i + 1) (top, off) (fun d hd => h d (List.mem_cons_of_mem _ hd))
+    exact retop_none g cs (i + 1) (top, off) (fun d hd => h d (List.mem_cons_of_mem _ hd))
 
-/-- With contiguous children (gap 0) at most one covers row 0: the final loop of `Draw` either
+/-- With contiguous children (gap ≥ 0) at most one covers row 0: the final loop of `Draw` either
     leaves (top, offset) alone or sets them from the unique covering child. -/
-theorem retop_spec : ∀ (cs : List Child) (i0 top : Nat) (off : Int), Contig 0 cs →
-    retop cs i0 (top, off) = (top, off) ∨
-    ∃ k c, cs[k]? = some c ∧ Covers c ∧ retop cs i0 (top, off) = (uadd top (i0 + k), - c.row)
+theorem retop_spec (g : Int) (hg : 0 ≤ g) : ∀ (cs : List Child) (i0 top : Nat) (off : Int), Contig g cs →
+    retop g cs i0 (top, off) = (top, off) ∨
+    ∃ k c, cs[k]? = some c ∧ Covers g c ∧ retop g cs i0 (top, off) = (uadd top (i0 + k), - c.row)
   | [], _, _, _, _ => Or.inl rfl
   | c :: rest, i0, top, off, hc => by
-    by_cases hcov : c.row ≤ 0 ∧ c.row + (c.height : Int) > 0
+    by_cases hcov : c.row ≤ 0 ∧ c.row + (c.height : Int) + g > 0
     · right
       refine ⟨0, c, rfl, ⟨hcov.1, by omega⟩, ?_⟩
       simp only [retop, hcov, and_self, if_true, Nat.add_zero]
       apply retop_none
       intro d hd hcd
       obtain ⟨m, hm⟩ := List.getElem?_of_mem hd
-      have := (contig_get (Int.le_refl 0) rest c hc (m + 1) d (by simpa using hm)).2.2 (by omega)
+      have := contig_get_gap hg rest c hc (m + 1) d (by simpa using hm) (by omega)
       unfold Covers at hcd
       omega
     · simp only [retop, hcov, if_false]
-      have hrest : Contig 0 rest := by
+      have hrest : Contig g rest := by
         cases rest with
         | nil => trivial
         | cons d r => exact hc.2
-      rcases retop_spec rest (i0 + 1) top off hrest with h | ⟨k, d, hk, hcd, he⟩
+      rcases retop_spec g hg rest (i0 + 1) top off hrest with h | ⟨k, d, hk, hcd, he⟩
       · exact Or.inl h
       · exact Or.inr ⟨k + 1, d, by simpa using hk, hcd, by rw [he]; congr 2; omega⟩
 
 /-! ### insertLoop: the returned top -/
 
-theorem insertLoop_top (stops : Bool) (hs : List Nat) : ∀ (fuel top : Nat) (ah : Int) (acc : List Child),
+theorem insertLoop_top (stops : Bool) (g : Int) (hs : List Nat) : ∀ (fuel top : Nat) (ah : Int) (acc : List Child),
     top < U → (∀ f, acc.head? = some f → top ≤ f.idx) →
-    (insertLoop stops hs fuel top ah acc).1 ≤ top ∧
-    (∀ f, (insertLoop stops hs fuel top ah acc).2.2.head? = some f → (insertLoop stops hs fuel top ah acc).1 ≤ f.idx) ∧
-    acc.length ≤ (insertLoop stops hs fuel top ah acc).2.2.length ∧
+    (insertLoop stops g hs fuel top ah acc).1 ≤ top ∧
+    (∀ f, (insertLoop stops g hs fuel top ah acc).2.2.head? = some f → (insertLoop stops g hs fuel top ah acc).1 ≤ f.idx) ∧
+    acc.length ≤ (insertLoop stops g hs fuel top ah acc).2.2.length ∧
     (0 < fuel → ah > 0 → (∃ h, builder hs top = some h) →
-      acc.length < (insertLoop stops hs fuel top ah acc).2.2.length) := by
+      acc.length < (insertLoop stops g hs fuel top ah acc).2.2.length) := by
   intro fuel
   induction fuel with
   | zero => intro top ah acc _ hf; exact ⟨Nat.le_refl _, hf, Nat.le_refl _, fun h => absurd h (by omega)⟩
@@ -73,7 +96,7 @@ theorem insertLoop_top (stops : Bool) (hs : List Nat) : ∀ (fuel top : Nat) (ah
         · rename_i h0'
           have h0 : top ≠ 0 := fun h => h0' (Or.inl h)
           have hu := usub_one h0 hU
-          have hrec := ih (usub top 1) (ah - (h : Int)) ({ idx := top, row := ah - (h : Int), height := h } :: acc)
+          have hrec := ih (usub top 1) (ah - ((h : Int) + g)) ({ idx := top, row := ah - ((h : Int) + g), height := h } :: acc)
             (by rw [hu]; omega)
             (fun f hfh => by
               simp only [List.head?_cons, Option.some.injEq] at hfh
@@ -83,7 +106,7 @@ theorem insertLoop_top (stops : Bool) (hs : List Nat) : ∀ (fuel top : Nat) (ah
           exact ⟨by omega, hrec.2.1, by omega, fun _ _ _ => by omega⟩
     · exact ⟨Nat.le_refl _, hf, Nat.le_refl _, fun _ h => absurd h (by assumption)⟩
 
-theorem restack_head : ∀ (cs : List Child) (r : Int) (f : Child), (restack r cs).head? = some f →
+theorem restack_head (g : Int) : ∀ (cs : List Child) (r : Int) (f : Child), (restack g r cs).head? = some f →
     ∃ f0, cs.head? = some f0 ∧ f.idx = f0.idx
   | [], _, _, h => by simp [restack] at h
   | c :: cs, r, f, h => by
@@ -91,17 +114,17 @@ theorem restack_head : ∀ (cs : List Child) (r : Int) (f : Child), (restack r c
     subst h
     exact ⟨c, rfl, rfl⟩
 
-theorem restack_length : ∀ (cs : List Child) (r : Int), (restack r cs).length = cs.length
+theorem restack_length (g : Int) : ∀ (cs : List Child) (r : Int), (restack g r cs).length = cs.length
   | [], _ => rfl
-  | c :: cs, r => by simp [restack, restack_length cs]
+  | c :: cs, r => by simp [restack, restack_length g cs]
 
-theorem insertChildren_top (stops : Bool) (hs : List Nat) (top : Nat) (ah : Int)
+theorem insertChildren_top (stops : Bool) (g : Int) (hs : List Nat) (top : Nat) (ah : Int)
     (h0 : top ≠ 0) (hU : top < U) :
-    (insertChildren stops hs top ah).1 ≤ top ∧
-    (∀ f, (insertChildren stops hs top ah).2.2.head? = some f → (insertChildren stops hs top ah).1 ≤ f.idx) ∧
-    (ah > 0 → (∃ h, builder hs (top - 1) = some h) → (insertChildren stops hs top ah).2.2 ≠ []) := by
+    (insertChildren stops g hs top ah).1 ≤ top ∧
+    (∀ f, (insertChildren stops g hs top ah).2.2.head? = some f → (insertChildren stops g hs top ah).1 ≤ f.idx) ∧
+    (ah > 0 → (∃ h, builder hs (top - 1) = some h) → (insertChildren stops g hs top ah).2.2 ≠ []) := by
   have hu := usub_one h0 hU
-  have sp := insertLoop_top stops hs top (usub top 1) ah [] (by rw [hu]; omega) (by intro f hf; cases hf)
+  have sp := insertLoop_top stops g hs top (usub top 1) ah [] (by rw [hu]; omega) (by intro f hf; cases hf)
   rw [hu] at sp
   unfold insertChildren
   rw [hu]
@@ -109,12 +132,12 @@ theorem insertChildren_top (stops : Bool) (hs : List Nat) (top : Nat) (ah : Int)
   split
   · refine ⟨by omega, ?_, ?_⟩
     · intro f hf
-      obtain ⟨f0, hf0, e⟩ := restack_head _ _ f hf
+      obtain ⟨f0, hf0, e⟩ := restack_head g _ _ f hf
       rw [e]; exact sp.2.1 f0 hf0
     · intro hpos hb hnil
       have := sp.2.2.2 (by omega) hpos hb
-      have hl := restack_length (insertLoop stops hs top (top - 1) ah []).2.2 0
-      have hnil' : restack 0 (insertLoop stops hs top (top - 1) ah []).2.2 = [] := hnil
+      have hl := restack_length g (insertLoop stops g hs top (top - 1) ah []).2.2 0
+      have hnil' : restack g 0 (insertLoop stops g hs top (top - 1) ah []).2.2 = [] := hnil
       rw [hnil'] at hl
       simp only [List.length_nil] at hl this
       omega
@@ -124,12 +147,13 @@ theorem insertChildren_top (stops : Bool) (hs : List Nat) (top : Nat) (ah : Int)
     rw [hnil] at this
     simp at this
 
-/-! ### no panic over whole histories (gap 0, fixed builder) -/
+/-! ### no panic over whole histories (any gap ≥ 0, items replaced at will) -/
 
-/-- The invariant: the top index exists (or is 0), a pending wants-cursor request refers to a
-    cursor at or below the top, cursors are sane `uint`s. -/
-structure Inv3 (hs : List Nat) (s : St) : Prop where
-  top_ok : s.top = 0 ∨ s.top < hs.length
+/-- The invariant — it does not mention the Builder, so it survives any replacement of the items:
+    the indices are sane `uint`s (below 2^63, so `int(…)` is not negative) and a pending wants-cursor
+    request refers to a cursor at or below the top. -/
+structure Inv (s : St) : Prop where
+  top_ok : s.top < 2 ^ 63
   wants_ok : s.wantsCursor = true → s.top ≤ s.cursor
   cur_ok : s.cursor < 2 ^ 63
 
@@ -151,327 +175,15 @@ theorem cursorChild_ok (cs : List Child) (cursor top : Nat) (h1 : top ≤ cursor
     have : ¬ (((cursor - top : Nat) : Int) < (cs.length : Int)) := by omega
     rw [if_neg this]
 
-theorem scrollUp_ok (stops : Bool) (hs : List Nat) (s1 : St) (ah1 : Int) (hU : s1.top < U)
-    (h0 : ah1 > 0 → s1.top ≠ 0 ∧ s1.top < hs.length) :
-    ∃ ah2 s2 cs0, scrollUp stops hs s1 ah1 = .ok (ah2, s2, cs0) ∧ s2.top ≤ s1.top ∧
-      (∀ f, cs0.head? = some f → s2.top ≤ f.idx) ∧ (cs0 = [] → s2 = s1) := by
-  unfold scrollUp
-  by_cases hpos : ah1 > 0
-  · obtain ⟨hne, hlt⟩ := h0 hpos
-    have hb : ∃ h, builder hs (s1.top - 1) = some h := by
-      unfold builder
-      have : s1.top - 1 < hs.length := by omega
-      exact ⟨hs[s1.top - 1], by rw [List.getElem?_eq_getElem this]⟩
-    obtain ⟨t1, t2, t3⟩ := insertChildren_top stops hs s1.top ah1 hne hU
-    have hnil := t3 hpos hb
-    simp only [hpos, if_true]
-    cases hl : (insertChildren stops hs s1.top ah1).2.2.getLast? with
-    | none => rw [List.getLast?_eq_none_iff] at hl; exact absurd hl hnil
-    | some last =>
-      exact ⟨_, _, _, rfl, t1, t2, fun h => absurd h hnil⟩
-  · simp only [hpos, if_false]
-    exact ⟨_, _, _, rfl, Nat.le_refl _, (fun f hf => by cases hf), fun _ => rfl⟩
-
-theorem drawDown_head (gap : Int) (wants : Bool) (cursor : Nat) (H : Int) (rest : List Nat) (i : Nat) (ah : Int)
-    (f : Child) (h : (drawDown gap wants cursor H rest i ah []).head? = some f) : f.idx = i := by
-  cases rest with
-  | nil => simp [drawDown] at h
-  | cons x rest =>
-    obtain ⟨t, ht⟩ := drawDown_prefix gap wants cursor H rest (i + 1) (ah + (x : Int) + gap)
-      ([] ++ [{ idx := i, row := ah, height := x }])
-    simp only [drawDown] at h
-    split at h
-    · rw [ht] at h; simp at h; rw [← h]
-    · split at h
-      · simp at h; rw [← h]
-      · rw [ht] at h; simp at h; rw [← h]
-
-/-- The phases of one `Draw` from a state satisfying `Inv3` (gap 0, repaired gutter guard): no phase
-    panics; the intermediate child lists and states with the facts the invariants need. -/
-theorem draw_phases (F : Facts) (hF : F.cursorGuard = true) (cfg : Cfg) (hgap : cfg.gap = 0)
-    (hs : List Nat) (hlen : hs.length < 2 ^ 63) (s : St) (W H : Nat)
-    (hW : W ≠ 65535) (hH : H ≠ 65535) (hi : Inv3 hs s) :
-    ∃ (ah2 : Int) (s2 : St) (cs0 cs1 cs2 : List Child) (s3 : St),
-      scrollUp F.insertStops hs (prologue s).2 (prologue s).1 = .ok (ah2, s2, cs0) ∧
-      cs1 = drawDown cfg.gap s2.wantsCursor s2.cursor H (hs.drop (prologue s).2.top) (prologue s).2.top ah2 cs0 ∧
-      Contig 0 cs1 ∧ Heights hs cs1 ∧ (∀ f, cs1.head? = some f → s2.top ≤ f.idx) ∧
-      reveal cs1 s2 H = .ok (cs2, s3) ∧ Contig 0 cs2 ∧ Heights hs cs2 ∧
-      (∀ f, cs2.head? = some f → s2.top ≤ f.idx) ∧
-      s3.top = s2.top ∧ s3.offset = s2.offset ∧ s3.cursor = s2.cursor ∧ s3.pending = s2.pending ∧
-      cs2.length = cs1.length ∧
-      (s3.wantsCursor = true → s2.top ≤ s2.cursor ∧ cs1.length ≤ s2.cursor - s2.top) ∧
-      (cs2 = cs1 ∨ ∃ (adj : Int) (m : Nat) (c' : Child),
-          adj ≤ 0 ∧ cs2 = cs1.map (fun c => { c with row := c.row + adj }) ∧ cs2[m]? = some c' ∧
-          c'.row + (c'.height : Int) = H) ∧
-      s2.top ≤ s.top ∧ s2.cursor = s.cursor ∧ s2.pending = 0 ∧ (cs0 = [] → s2 = (prologue s).2) ∧
-      draw F cfg hs s W H = .ok ({ s3 with top := (retop cs2 0 (s3.top, s3.offset)).1,
-                                            offset := (retop cs2 0 (s3.top, s3.offset)).2 }, cs2) := by
-  have hb : ¬ (H = 65535 ∨ W = 65535) := fun h => h.elim hH hW
-  obtain ⟨p1, p2, p3, p4⟩ := prologue_spec s
-  have htopU : (prologue s).2.top < U := by
-    rw [p1]; rcases hi.top_ok with h | h
-    · rw [h]; unfold U; omega
-    · unfold U; omega
-  have hins : (prologue s).1 > 0 → (prologue s).2.top ≠ 0 ∧ (prologue s).2.top < hs.length := by
-    intro h
-    have := (p4 h).1
-    rw [p1]
-    rcases hi.top_ok with h' | h'
-    · exact absurd h' this
-    · exact ⟨this, h'⟩
-  obtain ⟨ah2, s2, cs0, hsu, st1, st2, st3⟩ := scrollUp_ok F.insertStops hs _ _ htopU hins
-  obtain ⟨c0, h0, l0, e0, sc, sw⟩ := scrollUp_spec F.insertStops hs _ _ ah2 s2 cs0 hsu htopU (fun h => (hins h).1)
-  -- children after the downward loop
-  obtain ⟨cs1, hcs1⟩ : ∃ x, x = drawDown cfg.gap s2.wantsCursor s2.cursor H (hs.drop (prologue s).2.top)
-      (prologue s).2.top ah2 cs0 := ⟨_, rfl⟩
-  have dd := drawDown_spec cfg.gap s2.wantsCursor s2.cursor H hs _ (prologue s).2.top ah2 cs0 rfl
-    (by rw [hgap]; exact c0) h0
-    (fun l hl => by obtain ⟨a, b⟩ := l0 l hl; rw [hgap]; exact ⟨a, by omega⟩)
-  rw [← hcs1, hgap] at dd
-  have hhead : ∀ f, cs1.head? = some f → s2.top ≤ f.idx := by
-    intro f hf
-    by_cases hnil : cs0 = []
-    · have e := st3 hnil
-      rw [hcs1, hnil] at hf
-      have := drawDown_head _ _ _ _ _ _ _ f hf
-      rw [this, e]; exact Nat.le_refl _
-    · obtain ⟨t, ht⟩ := drawDown_prefix cfg.gap s2.wantsCursor s2.cursor H (hs.drop (prologue s).2.top)
-        (prologue s).2.top ah2 cs0
-      rw [hcs1, ht] at hf
-      cases cs0 with
-      | nil => exact absurd rfl hnil
-      | cons a rest => simp at hf; rw [← hf]; exact st2 a rfl
-  have hcur : s2.cursor = s.cursor := by rw [sc, p2]
-  have hwants : s2.wantsCursor = s.wantsCursor := by rw [sw, p3]
-  have htop2 : s2.top ≤ s.top := by rw [← p1]; exact st1
-  have hc63 : s2.cursor < 2 ^ 63 := by rw [hcur]; exact hi.cur_ok
-  -- gutter
-  have hgut : gutter F cfg cs1 s2 = .ok () := by
-    unfold gutter
-    split
-    · rename_i hc
-      have hle : s2.top ≤ s2.cursor := by
-        rcases hc.2 with h | h
-        · rw [hF] at h; cases h
-        · exact h
-      rcases cursorChild_ok cs1 s2.cursor s2.top hle hc63 with ⟨c, _, e⟩ | ⟨_, e⟩ <;> rw [e]
-    · rfl
-  -- reveal
-  have hrev : ∃ cs2 s3, reveal cs1 s2 H = .ok (cs2, s3) ∧ Contig 0 cs2 ∧ Heights hs cs2 ∧
-      (∀ f, cs2.head? = some f → s2.top ≤ f.idx) ∧ s3.top = s2.top ∧ s3.offset = s2.offset ∧
-      s3.cursor = s2.cursor ∧ s3.pending = s2.pending ∧
-      cs2.length = cs1.length ∧
-      (s3.wantsCursor = true → s2.top ≤ s2.cursor ∧ cs1.length ≤ s2.cursor - s2.top) ∧
-      (cs2 = cs1 ∨ ∃ (adj : Int) (m : Nat) (c' : Child),
-          adj ≤ 0 ∧ cs2 = cs1.map (fun c => { c with row := c.row + adj }) ∧ cs2[m]? = some c' ∧
-          c'.row + (c'.height : Int) = H) := by
-    unfold reveal
-    by_cases hw : s2.wantsCursor = true
-    · have hle : s2.top ≤ s2.cursor := by
-        have := hi.wants_ok (by rw [← hwants]; exact hw)
-        rw [hcur]; omega
-      rw [if_pos hw]
-      rcases cursorChild_ok cs1 s2.cursor s2.top hle hc63 with ⟨c, hcg, e⟩ | ⟨hl, e⟩
-      · rw [e]
-        simp only []
-        split
-        · rename_i hbr
-          refine ⟨_, _, rfl, contig_shift _ dd.1, heights_shift _ dd.2, ?_, rfl, rfl, rfl, rfl, by simp, (fun h => by cases h),
-            Or.inr ⟨_, s2.cursor - s2.top, { c with row := c.row + ((H : Int) - (c.row + (c.height : Int))) }, by omega, rfl, ?_, ?_⟩⟩
-          rotate_left
-          · rw [List.getElem?_map, hcg]; rfl
-          · show c.row + ((H : Int) - (c.row + (c.height : Int))) + (c.height : Int) = H; omega
-          intro f hf
-          rw [List.head?_map] at hf
-          cases hh : cs1.head? with
-          | none => rw [hh] at hf; cases hf
-          | some g => rw [hh] at hf; simp at hf; rw [← hf]; exact hhead g hh
-        · exact ⟨_, _, rfl, dd.1, dd.2, hhead, rfl, rfl, rfl, rfl, rfl, (fun h => by cases h), Or.inl rfl⟩
-      · rw [e]
-        exact ⟨_, _, rfl, dd.1, dd.2, hhead, rfl, rfl, rfl, rfl, rfl, (fun _ => ⟨hle, hl⟩), Or.inl rfl⟩
-    · rw [if_neg hw]
-      exact ⟨_, _, rfl, dd.1, dd.2, hhead, rfl, rfl, rfl, rfl, rfl, (fun h => absurd h hw), Or.inl rfl⟩
-  obtain ⟨cs2, s3, hrv, c2, h2, hd2, t3, o3, cu3, pe3, len2, w3, sh3⟩ := hrev
-  have hpend : s2.pending = 0 := by
-    have : (prologue s).2.pending = 0 := by unfold prologue; simp only []; split <;> rfl
-    have hsu' := hsu
-    unfold scrollUp at hsu'
-    split at hsu'
-    · simp only [] at hsu'
-      split at hsu'
-      · cases hsu'
-      · cases hsu'; exact this
-    · cases hsu'; exact this
-  refine ⟨ah2, s2, cs0, cs1, cs2, s3, hsu, hcs1, dd.1, dd.2, hhead, hrv, c2, h2, hd2, t3, o3, cu3, pe3, len2, w3, sh3,
-    htop2, hcur, hpend, st3, ?_⟩
-  unfold draw
-  rw [if_neg hb]
-  simp only [hsu]
-  rw [← hcs1, hgut]
-  simp only [hrv]
-
-/-- `Draw` preserves the invariant and does not panic (gap 0, repaired gutter guard). -/
-theorem draw_inv3 (F : Facts) (hF : F.cursorGuard = true) (cfg : Cfg) (hgap : cfg.gap = 0)
-    (hs : List Nat) (hlen : hs.length < 2 ^ 63) (s : St) (W H : Nat)
-    (hW : W ≠ 65535) (hH : H ≠ 65535) (hi : Inv3 hs s) :
-    ∃ s' cs, draw F cfg hs s W H = .ok (s', cs) ∧ Inv3 hs s' := by
-  obtain ⟨ah2, s2, cs0, cs1, cs2, s3, hsu, hcs1, dd1, dd2, hhead, hrv, c2, h2, hd2, t3, o3, cu3, pe3, len2, w3, sh3,
-    htop2, hcur, hpend, st3, hdraw⟩ := draw_phases F hF cfg hgap hs hlen s W H hW hH hi
-  have hc63 : s2.cursor < 2 ^ 63 := by rw [hcur]; exact hi.cur_ok
-  refine ⟨_, cs2, hdraw, ?_⟩
-  -- the invariant after the final loop
-  have hn63 : s2.top < 2 ^ 63 := by
-    rcases hi.top_ok with h | h <;> omega
-  rcases retop_spec cs2 0 s3.top s3.offset c2 with hr | ⟨k, c, hk, _, hr⟩
-  · rw [hr]
-    refine ⟨?_, ?_, ?_⟩
-    · show s3.top = 0 ∨ s3.top < hs.length
-      rw [t3]; rcases hi.top_ok with h | h <;> omega
-    · intro hw; show s3.top ≤ s3.cursor; rw [t3, cu3]; exact (w3 hw).1
-    · show s3.cursor < 2 ^ 63; rw [cu3]; exact hc63
-  · rw [hr]
-    -- the covering child is child k: its index is head.idx + k < n
-    have hklt : k < cs2.length := getElem?_lt hk
-    obtain ⟨f, rest, hcs⟩ : ∃ f rest, cs2 = f :: rest := by
-      cases cs2 with
-      | nil => simp at hklt
-      | cons f rest => exact ⟨f, rest, rfl⟩
-    have hfi : s2.top ≤ f.idx := hd2 f (by rw [hcs]; rfl)
-    have hci := (contig_get (Int.le_refl 0) rest f (by rw [← hcs]; exact c2) k c (by rw [← hcs]; exact hk)).1
-    have hcn : c.idx < hs.length := getElem?_lt (h2 c (List.mem_of_getElem? hk))
-    have hua : uadd s3.top (0 + k) = s3.top + k := by
-      unfold uadd U; rw [t3]; omega
-    rw [hua]
-    refine ⟨?_, ?_, ?_⟩
-    · show s3.top + k = 0 ∨ s3.top + k < hs.length
-      rw [t3]; omega
-    · intro hw
-      show s3.top + k ≤ s3.cursor
-      obtain ⟨a, b⟩ := w3 hw
-      rw [t3, cu3]; omega
-    · show s3.cursor < 2 ^ 63; rw [cu3]; exact hc63
-
-theorem ensureScroll_inv3 (hs : List Nat) (s : St) (c : Nat) (hi : Inv3 hs s) (hc : c < 2 ^ 63) :
-    Inv3 hs (ensureScroll { s with cursor := c }) := by
-  unfold ensureScroll
-  simp only []
-  split
-  · rename_i h
-    exact ⟨hi.top_ok, fun _ => Nat.le_of_lt h, hc⟩
-  · rename_i h
-    refine ⟨?_, fun _ => Nat.le_refl _, hc⟩
-    show c = 0 ∨ c < hs.length
-    rcases hi.top_ok with h' | h' <;> omega
-
-theorem init_inv3 (hs : List Nat) : Inv3 hs init :=
-  ⟨Or.inl rfl, (fun h => by cases h), by decide⟩
-
-theorem step_inv3 (F : Facts) (hF : F.cursorGuard = true) (cfg : Cfg) (hgap : cfg.gap = 0)
-    (hs : List Nat) (hlen : hs.length < 2 ^ 63) (s : St) (op : Op) (hi : Inv3 hs s) (ho : OpOk op) :
-    ∃ s', step F cfg hs s op = .ok s' ∧ Inv3 hs s' := by
-  cases op with
-  | setCursor c => exact ⟨_, rfl, ensureScroll_inv3 hs s c hi ho⟩
-  | next =>
-    refine ⟨(nextItem hs s).1, rfl, ?_⟩
-    have hu : uadd s.cursor 1 = s.cursor + 1 := by have := hi.cur_ok; unfold uadd U; omega
-    unfold nextItem
-    rw [hu]
-    cases hb : builder hs (s.cursor + 1) with
-    | none => exact hi
-    | some h =>
-      have : s.cursor + 1 < hs.length := getElem?_lt hb
-      exact ensureScroll_inv3 hs s _ hi (by omega)
-  | prev =>
-    refine ⟨(prevItem hs s).1, rfl, ?_⟩
-    unfold prevItem
-    split
-    · exact hi
-    · rename_i h0
-      have hu : usub s.cursor 1 = s.cursor - 1 := usub_le (by omega) hi.cur_ok
-      rw [hu]
-      cases hb : builder hs (s.cursor - 1) with
-      | none => exact hi
-      | some h => exact ensureScroll_inv3 hs s _ hi (by have := hi.cur_ok; omega)
-  | wheelDown => exact ⟨_, rfl, hi.top_ok, hi.wants_ok, hi.cur_ok⟩
-  | wheelUp =>
-    refine ⟨(wheelUp s).1, rfl, ?_⟩
-    unfold wheelUp
-    split
-    · exact ⟨hi.top_ok, hi.wants_ok, hi.cur_ok⟩
-    · exact hi
-  | pending k => exact ⟨_, rfl, hi.top_ok, hi.wants_ok, hi.cur_ok⟩
-  | draw W H =>
-    obtain ⟨s', cs, he, hi'⟩ := draw_inv3 F hF cfg hgap hs hlen s W H ho.1 ho.2 hi
-    exact ⟨s', by simp [step, he], hi'⟩
-
-theorem run_inv3 (F : Facts) (hF : F.cursorGuard = true) (cfg : Cfg) (hgap : cfg.gap = 0)
-    (hs : List Nat) (hlen : hs.length < 2 ^ 63) : ∀ (ops : List Op) (s : St), Inv3 hs s →
-    (∀ op ∈ ops, OpOk op) → ∃ s', run F cfg hs s ops = .ok s' ∧ Inv3 hs s'
-  | [], s, hi, _ => ⟨s, rfl, hi⟩
-  | op :: ops, s, hi, ho => by
-    obtain ⟨s1, he, hi1⟩ := step_inv3 F hF cfg hgap hs hlen s op hi (ho op List.mem_cons_self)
-    obtain ⟨s2, he2, hi2⟩ := run_inv3 F hF cfg hgap hs hlen ops s1 hi1 (fun o h => ho o (List.mem_cons_of_mem _ h))
-    exact ⟨s2, by simp [run, he, he2], hi2⟩
-
-/-! ### the scroll state stays settled (gap 0, positive heights, repaired insertChildren) -/
-
-theorem contig_link {gap : Int} : ∀ (l : List Child) (m : Nat) (b c : Child), Contig gap l →
-    l[m]? = some b → l[m + 1]? = some c → Link gap b c
-  | [], _, _, _, _, h, _ => by simp at h
-  | [_], m, _, _, _, _, h => by simp at h
-  | a :: d :: rest, 0, b, c, hc, h1, h2 => by
-    simp at h1 h2; subst h1; subst h2; exact hc.1
-  | a :: d :: rest, m + 1, b, c, hc, h1, h2 =>
-    contig_link (d :: rest) m b c hc.2 (by simpa using h1) (by simpa using h2)
-
-/-- Contiguous children whose first starts at or above row 0 and one of which ends below row 0
-    contain a child covering row 0. -/
-theorem exists_cover : ∀ (m : Nat) (l : List Child) (f c : Child), Contig 0 l → l[0]? = some f → f.row ≤ 0 →
-    l[m]? = some c → 0 < c.row + (c.height : Int) → ∃ (k : Nat) (d : Child), l[k]? = some d ∧ Covers d
-  | 0, l, f, c, _, hf, hr, hc, he => by
-    rw [hf] at hc; cases hc; exact ⟨0, f, hf, hr, he⟩
-  | m + 1, l, f, c, hl, hf, hr, hc, he => by
-    have hm : m < l.length := by have := getElem?_lt hc; omega
-    have hb : l[m]? = some l[m] := List.getElem?_eq_getElem hm
-    by_cases hbe : 0 < (l[m]).row + ((l[m]).height : Int)
-    · exact exists_cover m l f l[m] hl hf hr hb hbe
-    · have lk := contig_link l m l[m] c hl hb hc
-      exact ⟨m + 1, c, hc, by have := lk.2; omega, he⟩
-
-theorem retop_hit : ∀ (cs : List Child) (k : Nat) (c : Child) (i0 top : Nat) (off : Int), Contig 0 cs →
-    cs[k]? = some c → Covers c → retop cs i0 (top, off) = (uadd top (i0 + k), - c.row)
-  | [], _, _, _, _, _, _, h, _ => by simp at h
-  | a :: rest, 0, c, i0, top, off, hc, hk, hcov => by
-    simp at hk; subst hk
-    have hcov' : a.row ≤ 0 ∧ a.row + (a.height : Int) > 0 := ⟨hcov.1, by have := hcov.2; omega⟩
-    simp only [retop, hcov', and_self, if_true, Nat.add_zero]
-    apply retop_none
-    intro d hd hcd
-    obtain ⟨m, hm⟩ := List.getElem?_of_mem hd
-    have := (contig_get (Int.le_refl 0) rest a hc (m + 1) d (by simpa using hm)).2.2 (by omega)
-    unfold Covers at hcd
-    omega
-  | a :: rest, k + 1, c, i0, top, off, hc, hk, hcov => by
-    have hge := (contig_get (Int.le_refl 0) rest a hc (k + 1) c hk).2.2 (by omega)
-    have hna : ¬ (a.row ≤ 0 ∧ a.row + (a.height : Int) > 0) := by
-      unfold Covers at hcov; omega
-    have hrest : Contig 0 rest := by
-      cases rest with
-      | nil => trivial
-      | cons d r => exact hc.2
-    simp only [retop, hna, if_false]
-    rw [retop_hit rest k c (i0 + 1) top off hrest (by simpa using hk) hcov]
-    congr 2; omega
-
 /-- The repaired insertion loop (`stops = true`) over a builder that has every index up to `top`:
-    the first child of the result is item `top'` at row `ah'`, it ends below row 0, and the loop
-    stopped because the height was used up or item 0 was reached. -/
-theorem insertLoop_exact (hs : List Nat) : ∀ (fuel top : Nat) (ah : Int) (acc : List Child),
+    the first child of the result is item `top'` at row `ah'`, it (with its gap) ends below row 0,
+    and the loop stopped because the height was used up or item 0 was reached. -/
+theorem insertLoop_exact (g : Int) (hs : List Nat) : ∀ (fuel top : Nat) (ah : Int) (acc : List Child),
     top < U → top < fuel → top < hs.length → ah > 0 →
-    ∃ h, (insertLoop true hs fuel top ah acc).2.2.head? =
-        some { idx := (insertLoop true hs fuel top ah acc).1, row := (insertLoop true hs fuel top ah acc).2.1, height := h } ∧
-      0 < (insertLoop true hs fuel top ah acc).2.1 + (h : Int) ∧
-      ((insertLoop true hs fuel top ah acc).2.1 ≤ 0 ∨ (insertLoop true hs fuel top ah acc).1 = 0) := by
+    ∃ h, (insertLoop true g hs fuel top ah acc).2.2.head? =
+        some { idx := (insertLoop true g hs fuel top ah acc).1, row := (insertLoop true g hs fuel top ah acc).2.1, height := h } ∧
+      0 < (insertLoop true g hs fuel top ah acc).2.1 + (h : Int) + g ∧
+      ((insertLoop true g hs fuel top ah acc).2.1 ≤ 0 ∨ (insertLoop true g hs fuel top ah acc).1 = 0) := by
   intro fuel
   induction fuel with
   | zero => intro top ah acc _ h; omega
@@ -487,268 +199,514 @@ theorem insertLoop_exact (hs : List Nat) : ∀ (fuel top : Nat) (ah : Int) (acc 
       · exact Or.inl h.2
     · rename_i hcont
       have h0 : top ≠ 0 := fun h => hcont (Or.inl h)
-      have hah : ah - (hs[top] : Int) > 0 := by
-        have : ¬ (ah - (hs[top] : Int) ≤ 0) := fun h => hcont (Or.inr ⟨by simp, h⟩)
+      have hah : ah - ((hs[top] : Int) + g) > 0 := by
+        have : ¬ (ah - ((hs[top] : Int) + g) ≤ 0) := fun h => hcont (Or.inr ⟨by simp, h⟩)
         omega
       have hu := usub_one h0 hU
       rw [hu]
-      exact ih (top - 1) (ah - (hs[top] : Int)) _ (by omega) (by omega) (by omega) hah
+      exact ih (top - 1) (ah - ((hs[top] : Int) + g)) _ (by omega) (by omega) (by omega) hah
 
-/-- What the repaired `insertChildren` + `Children[len-1]` leave behind on an upward scroll. -/
-theorem scrollUp_exact (hs : List Nat) (s1 : St) (ah1 ah2 : Int) (s2 : St) (cs0 : List Child)
-    (he : scrollUp true hs s1 ah1 = .ok (ah2, s2, cs0)) (hU : s1.top < U) :
-    (¬ ah1 > 0 → cs0 = [] ∧ s2 = s1) ∧
-    (ah1 > 0 → s1.top ≠ 0 → s1.top < hs.length →
-      ∃ f, cs0.head? = some f ∧ f.idx = s2.top ∧ f.row ≤ 0 ∧
-        (s2.offset = 0 ∨ (s2.offset < 0 ∧ f.row = s2.offset ∧ 0 < f.row + (f.height : Int)))) := by
-  unfold scrollUp at he
-  split at he
-  · rename_i hpos
-    refine ⟨fun h => absurd hpos h, fun _ h0 hn => ?_⟩
-    have hu := usub_one h0 hU
-    obtain ⟨h, e1, e2, e3⟩ := insertLoop_exact hs s1.top (s1.top - 1) ah1 [] (by omega) (by omega) (by omega) hpos
-    simp only [] at he
-    split at he
-    · cases he
-    · cases he
-      simp only []
+/-- The upward scroll of the repaired code from a top index that exists: no panic, the top moves up
+    to the first inserted child. -/
+theorem scrollUp_ok (g : Int) (hs : List Nat) (s1 : St) (ah1 : Int) (hU : s1.top < U)
+    (h0 : ah1 > 0 → s1.top ≠ 0 ∧ s1.top < hs.length) :
+    ∃ ah2 s2 cs0, scrollUp true g hs s1 ah1 = .ok (ah2, s2, cs0) ∧ s2.top ≤ s1.top ∧
+      (∀ f, cs0.head? = some f → f.idx = s2.top) ∧ (cs0 = [] → s2 = s1) ∧
+      s2.pending = s1.pending := by
+  unfold scrollUp
+  by_cases hpos : ah1 > 0
+  · obtain ⟨hne, hlt⟩ := h0 hpos
+    have hu := usub_one hne hU
+    obtain ⟨h, e1, _, _⟩ := insertLoop_exact g hs s1.top (s1.top - 1) ah1 [] (by omega) (by omega) (by omega) hpos
+    obtain ⟨t1, _, _⟩ := insertChildren_top true g hs s1.top ah1 hne hU
+    have hne' : (insertChildren true g hs s1.top ah1).2.2 ≠ [] ∧
+        ∀ f, (insertChildren true g hs s1.top ah1).2.2.head? = some f → f.idx = (insertChildren true g hs s1.top ah1).1 := by
       unfold insertChildren
       rw [hu]
       simp only []
-      split
-      · rename_i hre
-        -- restacked from row 0
-        cases hcs : (insertLoop true hs s1.top (s1.top - 1) ah1 []).2.2 with
-        | nil => rw [hcs] at e1; cases e1
-        | cons a rest =>
-          rw [hcs] at e1
-          simp only [List.head?_cons, Option.some.injEq] at e1
-          refine ⟨{ a with row := 0 }, by simp [restack], ?_, Int.le_refl 0, Or.inl rfl⟩
-          rw [e1]
-      · rename_i hre
-        refine ⟨_, e1, rfl, ?_, ?_⟩
-        · show (insertLoop true hs s1.top (s1.top - 1) ah1 []).2.1 ≤ 0
-          rcases e3 with h' | h'
-          · exact h'
-          · have : ¬ ((insertLoop true hs s1.top (s1.top - 1) ah1 []).2.1 > 0) := fun hp => hre ⟨h', hp⟩
-            omega
-        · show (insertLoop true hs s1.top (s1.top - 1) ah1 []).2.1 = 0 ∨ _
-          have hle : (insertLoop true hs s1.top (s1.top - 1) ah1 []).2.1 ≤ 0 := by
-            rcases e3 with h' | h'
-            · exact h'
-            · have : ¬ ((insertLoop true hs s1.top (s1.top - 1) ah1 []).2.1 > 0) := fun hp => hre ⟨h', hp⟩
-              omega
-          by_cases hz : (insertLoop true hs s1.top (s1.top - 1) ah1 []).2.1 = 0
-          · exact Or.inl hz
-          · exact Or.inr ⟨(by show (insertLoop true hs s1.top (s1.top - 1) ah1 []).2.1 < 0; omega), rfl, e2⟩
-  · rename_i hn
-    cases he
-    exact ⟨fun _ => ⟨rfl, rfl⟩, fun h => absurd h hn⟩
+      cases hcs : (insertLoop true g hs s1.top (s1.top - 1) ah1 []).2.2 with
+      | nil => rw [hcs] at e1; cases e1
+      | cons a rest =>
+        rw [hcs] at e1
+        simp only [List.head?_cons, Option.some.injEq] at e1
+        split
+        · refine ⟨by simp [restack], fun f hf => ?_⟩
+          simp only [restack, List.head?_cons, Option.some.injEq] at hf
+          rw [← hf, e1]
+        · refine ⟨by simp, fun f hf => ?_⟩
+          simp only [List.head?_cons, Option.some.injEq] at hf
+          rw [← hf, e1]
+    simp only [hpos, if_true]
+    cases hl : (insertChildren true g hs s1.top ah1).2.2.getLast? with
+    | none => rw [List.getLast?_eq_none_iff] at hl; exact absurd hl hne'.1
+    | some last =>
+      exact ⟨_, _, _, rfl, t1, hne'.2, fun h => absurd h hne'.1, rfl⟩
+  · simp only [hpos, if_false]
+    exact ⟨_, _, _, rfl, Nat.le_refl _, (fun f hf => by cases hf), fun _ => rfl, rfl⟩
 
-/-- The invariant with the scroll offset: it is never negative and lies within the top item. -/
-structure Inv4 (hs : List Nat) (s : St) : Prop where
-  inv3 : Inv3 hs s
-  off_nonneg : 0 ≤ s.offset
-  off_in : s.offset = 0 ∨ ∃ ht, hs[s.top]? = some ht ∧ s.offset < (ht : Int)
+theorem drawDown_head (gap : Int) (wants : Bool) (cursor : Nat) (H : Int) (rest : List Nat) (i : Nat) (ah : Int)
+    (f : Child) (h : (drawDown gap wants cursor H rest i ah []).head? = some f) : f.idx = i ∧ f.row = ah := by
+  cases rest with
+  | nil => simp [drawDown] at h
+  | cons x rest =>
+    obtain ⟨t, ht⟩ := drawDown_prefix gap wants cursor H rest (i + 1) (ah + (x : Int) + gap)
+      ([] ++ [{ idx := i, row := ah, height := x }])
+    simp only [drawDown] at h
+    split at h
+    · rw [ht] at h; simp at h; rw [← h]; exact ⟨rfl, rfl⟩
+    · split at h
+      · simp at h; rw [← h]; exact ⟨rfl, rfl⟩
+      · rw [ht] at h; simp at h; rw [← h]; exact ⟨rfl, rfl⟩
 
-theorem prologue_off (s : St) : (prologue s).2.offset = 0 ∨ (prologue s).2.offset = s.offset := by
-  unfold prologue; simp only []; split
-  · exact Or.inl rfl
-  · exact Or.inr rfl
+theorem prologue_pending (s : St) : (prologue s).2.pending = 0 := by
+  unfold prologue; simp only []; split <;> rfl
 
-theorem head?_getElem? {α} (l : List α) : l.head? = l[0]? := by cases l <;> rfl
-
-/-- `Draw` re-establishes the settled scroll state (gap 0, both repairs present, viewport ≥ 1 row). -/
-theorem draw_inv4 (F : Facts) (hF : F.cursorGuard = true) (hS : F.insertStops = true)
-    (cfg : Cfg) (hgap : cfg.gap = 0) (hs : List Nat) (hlen : hs.length < 2 ^ 63) (s : St) (W H : Nat)
-    (hW : W ≠ 65535) (hH : H ≠ 65535) (hH1 : 1 ≤ H) (hi : Inv4 hs s) :
-    ∃ s' cs, draw F cfg hs s W H = .ok (s', cs) ∧ Inv4 hs s' := by
-  obtain ⟨ah2, s2, cs0, cs1, cs2, s3, hsu, hcs1, dd1, dd2, hhead1, hrv, c2, h2, hd2, t3, o3, cu3, pe3, len2, w3, sh3,
-    htop2, hcur, hpend, st3, hdraw⟩ := draw_phases F hF cfg hgap hs hlen s W H hW hH hi.inv3
-  obtain ⟨s', cs, he, hi3⟩ := draw_inv3 F hF cfg hgap hs hlen s W H hW hH hi.inv3
-  rw [hdraw] at he
-  cases he
-  suffices key : 0 ≤ (retop cs2 0 (s3.top, s3.offset)).2 ∧
-      ((retop cs2 0 (s3.top, s3.offset)).2 = 0 ∨
-        ∃ ht, hs[(retop cs2 0 (s3.top, s3.offset)).1]? = some ht ∧ (retop cs2 0 (s3.top, s3.offset)).2 < (ht : Int)) from
-    ⟨_, cs2, hdraw, hi3, key.1, key.2⟩
-  obtain ⟨p1, p2, p3, p4⟩ := prologue_spec s
-  have htopU : (prologue s).2.top < U := by
-    rw [p1]; rcases hi.inv3.top_ok with h | h
-    · rw [h]; unfold U; omega
-    · unfold U; omega
-  rw [hS] at hsu
-  obtain ⟨x1, x2⟩ := scrollUp_exact hs _ _ ah2 s2 cs0 hsu htopU
-  -- head of cs1 / cs2 versus head of cs0
-  have hmaphead : ∀ f, cs2.head? = some f → ∃ g, cs1.head? = some g ∧ f.idx = g.idx ∧ f.height = g.height ∧ f.row ≤ g.row := by
+/-- The phases of one `Draw` of the repaired code from a state satisfying `Inv` (any gap, any
+    builder): no phase panics; the intermediate child lists and states with the facts the
+    invariants and the visibility theorems need. -/
+theorem draw_phases (cfg : Cfg) (hs : List Nat) (hlen : hs.length < 2 ^ 63) (s : St) (W H : Nat)
+    (hW : W ≠ 65535) (hH : H ≠ 65535) (hi : Inv s) :
+    ∃ (sc : St) (ah2 : Int) (s2 : St) (cs0 cs1 cs2 : List Child) (s3 : St),
+      sc = clampTop true hs s ∧
+      scrollUp true cfg.gap hs (prologue sc).2 (prologue sc).1 = .ok (ah2, s2, cs0) ∧
+      cs1 = drawDown cfg.gap s2.wantsCursor s2.cursor H (hs.drop sc.top) sc.top ah2 cs0 ∧
+      Contig cfg.gap cs1 ∧ Heights hs cs1 ∧ (∀ f, cs1.head? = some f → f.idx = s2.top) ∧
+      reveal true cs1 s2 H = .ok (cs2, s3) ∧ Contig cfg.gap cs2 ∧ Heights hs cs2 ∧
+      (∀ f, cs2.head? = some f → f.idx = s2.top) ∧
+      s3.top = s2.top ∧ s3.offset = s2.offset ∧ s3.cursor = s2.cursor ∧ s3.pending = s2.pending ∧
+      cs2.length = cs1.length ∧
+      (s3.wantsCursor = true → s2.top ≤ s2.cursor ∧ cs1.length ≤ s2.cursor - s2.top) ∧
+      (sc.top = 0 ∨ sc.top < hs.length) ∧ sc.top ≤ s.top ∧ ((s.top = 0 ∨ s.top < hs.length) → sc = s) ∧
+      s2.top ≤ sc.top ∧ s2.cursor = s.cursor ∧ s2.wantsCursor = s.wantsCursor ∧ s2.pending = 0 ∧
+      (cs0 = [] → s2 = (prologue sc).2) ∧ cs0.length = sc.top - s2.top ∧
+      draw Facts.fixed cfg hs s W H = .ok ({ s3 with top := (retop cfg.gap cs2 0 (s3.top, s3.offset)).1,
+                                                     offset := (retop cfg.gap cs2 0 (s3.top, s3.offset)).2 }, cs2) := by
+  have hb : ¬ (H = 65535 ∨ W = 65535) := fun h => h.elim hH hW
+  have hsU : s.top < U := by have := hi.top_ok; unfold U; omega
+  obtain ⟨k1, k2, k3, k4, k5, k6⟩ := clampTop_spec hs s hsU
+  obtain ⟨sc, hsc⟩ : ∃ x, x = clampTop true hs s := ⟨_, rfl⟩
+  rw [← hsc] at k1 k2 k3 k4 k5 k6
+  obtain ⟨p1, p2, p3, p4⟩ := prologue_spec sc
+  have htopU : (prologue sc).2.top < U := by rw [p1]; omega
+  have hins : (prologue sc).1 > 0 → (prologue sc).2.top ≠ 0 ∧ (prologue sc).2.top < hs.length := by
+    intro h
+    have := (p4 h).1
+    rw [p1]
+    rcases k2 with h' | h'
+    · exact absurd h' this
+    · exact ⟨this, h'⟩
+  obtain ⟨ah2, s2, cs0, hsu, st1, st2, st3, st4⟩ := scrollUp_ok cfg.gap hs _ _ htopU hins
+  obtain ⟨c0, h0, l0, e0, scur, sw⟩ := scrollUp_spec true cfg.gap hs _ _ ah2 s2 cs0 hsu htopU (fun h => (hins h).1)
+  rw [p1] at st1 l0
+  obtain ⟨cs1, hcs1⟩ : ∃ x, x = drawDown cfg.gap s2.wantsCursor s2.cursor H (hs.drop sc.top) sc.top ah2 cs0 := ⟨_, rfl⟩
+  have dd := drawDown_spec cfg.gap s2.wantsCursor s2.cursor H hs _ sc.top ah2 cs0 rfl c0 h0 l0
+  rw [← hcs1] at dd
+  have hhead : ∀ f, cs1.head? = some f → f.idx = s2.top := by
     intro f hf
-    rcases sh3 with e | ⟨adj, m, c', hadj, e, _, _⟩
-    · rw [e] at hf; exact ⟨f, hf, rfl, rfl, Int.le_refl _⟩
-    · rw [e, List.head?_map] at hf
+    by_cases hnil : cs0 = []
+    · have e := st3 hnil
+      rw [hcs1, hnil] at hf
+      have := (drawDown_head _ _ _ _ _ _ _ f hf).1
+      rw [this, e, p1]
+    · obtain ⟨t, ht⟩ := drawDown_prefix cfg.gap s2.wantsCursor s2.cursor H (hs.drop sc.top) sc.top ah2 cs0
+      rw [hcs1, ht] at hf
+      cases cs0 with
+      | nil => exact absurd rfl hnil
+      | cons a rest => simp at hf; rw [← hf]; exact st2 a rfl
+  -- the inserted children are exactly the items s2.top … sc.top − 1
+  have hlen0 : cs0.length = sc.top - s2.top := by
+    cases hcs0 : cs0 with
+    | nil =>
+      have e := st3 hcs0
+      rw [e, p1]; simp
+    | cons f rest =>
+      have hf : f.idx = s2.top := st2 f (by rw [hcs0]; rfl)
+      have hl : (f :: rest)[rest.length]? = some ((f :: rest).getLast (by simp)) := by
+        rw [List.getLast_eq_getElem]; simp
+      have hl' : cs0.getLast? = some ((f :: rest).getLast (by simp)) := by
+        rw [hcs0, List.getLast?_eq_some_getLast (by simp)]
+      have hi1 := (contig_get_idx rest f (by rw [← hcs0]; exact c0) rest.length _ hl)
+      have := (l0 _ hl').1
+      simp only [List.length_cons]
+      omega
+  have hcur : s2.cursor = s.cursor := by rw [scur, p2, k3]
+  have hwants : s2.wantsCursor = s.wantsCursor := by rw [sw, p3, k4]
+  have hc63 : s2.cursor < 2 ^ 63 := by rw [hcur]; exact hi.cur_ok
+  -- gutter
+  have hgut : gutter Facts.fixed cfg cs1 s2 = .ok () := by
+    unfold gutter
+    split
+    · rename_i hc
+      have hle : s2.top ≤ s2.cursor := by
+        rcases hc.2 with h | h
+        · cases h
+        · exact h
+      rcases cursorChild_ok cs1 s2.cursor s2.top hle hc63 with ⟨c, _, e⟩ | ⟨_, e⟩ <;> rw [e]
+    · rfl
+  -- reveal
+  have hrev : ∃ cs2 s3, reveal true cs1 s2 H = .ok (cs2, s3) ∧ Contig cfg.gap cs2 ∧ Heights hs cs2 ∧
+      (∀ f, cs2.head? = some f → f.idx = s2.top) ∧ s3.top = s2.top ∧ s3.offset = s2.offset ∧
+      s3.cursor = s2.cursor ∧ s3.pending = s2.pending ∧
+      cs2.length = cs1.length ∧
+      (s3.wantsCursor = true → s2.top ≤ s2.cursor ∧ cs1.length ≤ s2.cursor - s2.top) := by
+    have hmaphead : ∀ (adj : Int) f, (cs1.map fun c => { c with row := c.row + adj }).head? = some f → f.idx = s2.top := by
+      intro adj f hf
+      rw [List.head?_map] at hf
       cases hh : cs1.head? with
       | none => rw [hh] at hf; cases hf
-      | some g =>
-        rw [hh] at hf; simp only [Option.map_some, Option.some.injEq] at hf
-        exact ⟨g, rfl, by rw [← hf], by rw [← hf], by rw [← hf]; show g.row + adj ≤ g.row; omega⟩
-  -- the inserted head (when there was an upward scroll)
-  have hins : cs0 ≠ [] → ∃ f0, cs0.head? = some f0 ∧ cs1.head? = some f0 ∧ f0.idx = s2.top ∧ f0.row ≤ 0 ∧
-      (s2.offset = 0 ∨ (s2.offset < 0 ∧ f0.row = s2.offset ∧ 0 < f0.row + (f0.height : Int))) := by
-    intro hne
-    have hpos : (prologue s).1 > 0 := by
-      by_cases h : (prologue s).1 > 0
-      · exact h
-      · exact absurd (x1 h).1 hne
-    have ht0 := (p4 hpos).1
-    have htn : (prologue s).2.top < hs.length := by
-      rw [p1]; rcases hi.inv3.top_ok with h | h
-      · exact absurd h ht0
-      · exact h
-    obtain ⟨f0, e1, e2, e3, e4⟩ := x2 hpos (by rw [p1]; exact ht0) htn
-    refine ⟨f0, e1, ?_, e2, e3, e4⟩
-    obtain ⟨t, ht⟩ := drawDown_prefix cfg.gap s2.wantsCursor s2.cursor H (hs.drop (prologue s).2.top)
-      (prologue s).2.top ah2 cs0
-    rw [hcs1, ht]
-    cases cs0 with
-    | nil => exact absurd rfl hne
-    | cons a rest => simpa using e1
-  have hexact : ∀ f, cs2.head? = some f → f.idx = s2.top := by
-    intro f hf
-    obtain ⟨g, hg, e, _, _⟩ := hmaphead f hf
-    rw [e]
-    by_cases hnil : cs0 = []
-    · have es := st3 hnil
-      rw [hcs1, hnil] at hg
-      rw [drawDown_head _ _ _ _ _ _ _ g hg, es]
-    · obtain ⟨f0, _, h1, h2', _⟩ := hins hnil
-      rw [h1] at hg; cases hg; exact h2'
-  have hs2top63 : s2.top < 2 ^ 63 := by
-    rcases hi.inv3.top_ok with h | h <;> omega
-  by_cases hex : ∃ (k : Nat) (c : Child), cs2[k]? = some c ∧ Covers c
-  · -- the unique covering child determines top and offset
-    obtain ⟨k, c, hk, hcov⟩ := hex
-    have hr := retop_hit cs2 k c 0 s3.top s3.offset c2 hk hcov
+      | some g => rw [hh] at hf; simp at hf; rw [← hf]; exact hhead g hh
+    unfold reveal
+    by_cases hw : s2.wantsCursor = true
+    · have hle : s2.top ≤ s2.cursor := by
+        have := hi.wants_ok (by rw [← hwants]; exact hw)
+        rw [hcur]; omega
+      rw [if_pos hw]
+      rcases cursorChild_ok cs1 s2.cursor s2.top hle hc63 with ⟨c, hcg, e⟩ | ⟨hl, e⟩
+      · rw [e]
+        simp only []
+        split
+        · exact ⟨_, _, rfl, contig_shift _ dd.1, heights_shift _ dd.2, hmaphead _, rfl, rfl, rfl, rfl, by simp, (fun h => by cases h)⟩
+        · split
+          · exact ⟨_, _, rfl, contig_shift _ dd.1, heights_shift _ dd.2, hmaphead _, rfl, rfl, rfl, rfl, by simp, (fun h => by cases h)⟩
+          · exact ⟨_, _, rfl, dd.1, dd.2, hhead, rfl, rfl, rfl, rfl, rfl, (fun h => by cases h)⟩
+      · rw [e]
+        exact ⟨_, _, rfl, dd.1, dd.2, hhead, rfl, rfl, rfl, rfl, rfl, (fun _ => ⟨hle, hl⟩)⟩
+    · rw [if_neg hw]
+      exact ⟨_, _, rfl, dd.1, dd.2, hhead, rfl, rfl, rfl, rfl, rfl, (fun h => absurd h hw)⟩
+  obtain ⟨cs2, s3, hrv, c2, h2, hd2, t3, o3, cu3, pe3, len2, w3⟩ := hrev
+  have hpend : s2.pending = 0 := by rw [st4]; exact prologue_pending sc
+  refine ⟨sc, ah2, s2, cs0, cs1, cs2, s3, hsc, hsu, hcs1, dd.1, dd.2, hhead, hrv, c2, h2, hd2, t3, o3, cu3, pe3, len2, w3,
+    k2, k1, k6, st1, hcur, hwants, hpend, st3, hlen0, ?_⟩
+  unfold draw
+  rw [if_neg hb]
+  simp only [Facts.fixed, if_true]
+  rw [← hsc]
+  simp only [hsu]
+  rw [p1, ← hcs1]
+  have hgut' : gutter ⟨true, true, true, true, true⟩ cfg cs1 s2 = .ok () := hgut
+  rw [hgut']
+  simp only [hrv]
+
+/-- `Draw` of the repaired code never panics from a state satisfying the invariant and re-establishes
+    it — for every builder and every gap ≥ 0.  The new top index is 0 or refers to an existing item. -/
+theorem draw_inv (cfg : Cfg) (hgap : 0 ≤ cfg.gap) (hs : List Nat) (hlen : hs.length < 2 ^ 63) (s : St) (W H : Nat)
+    (hW : W ≠ 65535) (hH : H ≠ 65535) (hi : Inv s) :
+    ∃ s' cs, draw Facts.fixed cfg hs s W H = .ok (s', cs) ∧ Inv s' ∧ (s'.top = 0 ∨ s'.top < hs.length) ∧
+      s'.cursor = s.cursor ∧ s'.pending = 0 := by
+  obtain ⟨sc, ah2, s2, cs0, cs1, cs2, s3, hsc, hsu, hcs1, dd1, dd2, hhead, hrv, c2, h2, hd2, t3, o3, cu3, pe3, len2, w3,
+    k2, k1, k6, htop2, hcur, hwants, hpend, st3, hlen0, hdraw⟩ := draw_phases cfg hs hlen s W H hW hH hi
+  have hc63 : s2.cursor < 2 ^ 63 := by rw [hcur]; exact hi.cur_ok
+  have ht63 := hi.top_ok
+  refine ⟨_, cs2, hdraw, ?_⟩
+  rcases retop_spec cfg.gap hgap cs2 0 s3.top s3.offset c2 with hr | ⟨k, c, hk, _, hr⟩
+  · rw [hr]
+    refine ⟨⟨?_, ?_, ?_⟩, ?_, ?_, ?_⟩
+    · show s3.top < 2 ^ 63; rw [t3]; omega
+    · intro hw; show s3.top ≤ s3.cursor; rw [t3, cu3]; exact (w3 hw).1
+    · show s3.cursor < 2 ^ 63; rw [cu3]; exact hc63
+    · show s3.top = 0 ∨ s3.top < hs.length; rw [t3]; omega
+    · show s3.cursor = s.cursor; rw [cu3, hcur]
+    · show s3.pending = 0; rw [pe3, hpend]
+  · rw [hr]
     have hklt : k < cs2.length := getElem?_lt hk
     obtain ⟨f, rest, hcs⟩ : ∃ f rest, cs2 = f :: rest := by
       cases cs2 with
       | nil => simp at hklt
       | cons f rest => exact ⟨f, rest, rfl⟩
-    have hfi : f.idx = s2.top := hexact f (by rw [hcs]; rfl)
-    have hci := (contig_get (Int.le_refl 0) rest f (by rw [← hcs]; exact c2) k c (by rw [← hcs]; exact hk)).1
-    have hch : hs[c.idx]? = some c.height := h2 c (List.mem_of_getElem? hk)
-    have hcn : c.idx < hs.length := getElem?_lt hch
-    have hua : uadd s3.top (0 + k) = c.idx := by
+    have hfi : f.idx = s2.top := hd2 f (by rw [hcs]; rfl)
+    have hci := contig_get_idx rest f (by rw [← hcs]; exact c2) k c (by rw [← hcs]; exact hk)
+    have hcn : c.idx < hs.length := getElem?_lt (h2 c (List.mem_of_getElem? hk))
+    have hua : uadd s3.top (0 + k) = s3.top + k := by
       unfold uadd U; rw [t3]; omega
-    rw [hr, hua]
-    refine ⟨?_, ?_⟩
-    · show 0 ≤ - c.row; have := hcov.1; omega
-    · right
-      exact ⟨c.height, hch, (by show - c.row < (c.height : Int); have := hcov.2; omega)⟩
-  · -- nothing covers row 0: top and offset stay as the earlier phases left them
-    have hnone : ∀ c ∈ cs2, ¬ Covers c := by
-      intro c hc hcov
-      obtain ⟨m, hm⟩ := List.getElem?_of_mem hc
-      exact hex ⟨m, c, hm, hcov⟩
-    rw [retop_none cs2 0 (s3.top, s3.offset) hnone]
-    show 0 ≤ s3.offset ∧ (s3.offset = 0 ∨ ∃ ht, hs[s3.top]? = some ht ∧ s3.offset < (ht : Int))
-    rw [t3, o3]
-    by_cases hnil : cs0 = []
-    · have es := st3 hnil
-      rw [es, p1]
-      rcases prologue_off s with h | h
-      · rw [h]; exact ⟨Int.le_refl 0, Or.inl rfl⟩
-      · rw [h]; exact ⟨hi.off_nonneg, hi.off_in⟩
-    · obtain ⟨f0, _, h1, _, hrow, hoff⟩ := hins hnil
-      rcases hoff with h | ⟨hneg, hfr, hend⟩
-      · rw [h]; exact ⟨Int.le_refl 0, Or.inl rfl⟩
-      · -- impossible: the inserted head (or, after the cursor shift, a later child) covers row 0
-        exfalso
-        rcases sh3 with e | ⟨adj, m, c', hadj, e, hm, hend'⟩
-        · have h0 : cs2[0]? = some f0 := by rw [e, ← head?_getElem?]; exact h1
-          exact hex ⟨0, f0, h0, hrow, hend⟩
-        · have h0 : cs2[0]? = some { f0 with row := f0.row + adj } := by
-            rw [e, List.getElem?_map, ← head?_getElem?, h1]; rfl
-          obtain ⟨k, d, hk, hd⟩ := exists_cover m cs2 _ c' c2 h0 (by show f0.row + adj ≤ 0; omega) hm (by omega)
-          exact hex ⟨k, d, hk, hd⟩
+    rw [hua]
+    refine ⟨⟨?_, ?_, ?_⟩, ?_, ?_, ?_⟩
+    · show s3.top + k < 2 ^ 63; rw [t3]; omega
+    · intro hw
+      show s3.top + k ≤ s3.cursor
+      obtain ⟨a, b⟩ := w3 hw
+      rw [t3, cu3]; omega
+    · show s3.cursor < 2 ^ 63; rw [cu3]; exact hc63
+    · show s3.top + k = 0 ∨ s3.top + k < hs.length; rw [t3]; omega
+    · show s3.cursor = s.cursor; rw [cu3, hcur]
+    · show s3.pending = 0; rw [pe3, hpend]
 
-/-- Operations of a sane caller drawing into viewports of at least one row. -/
-def OpOk1 : Op → Prop
-  | .setCursor c => c < 2 ^ 63
-  | .draw W H => W ≠ 65535 ∧ H ≠ 65535 ∧ 1 ≤ H
-  | _ => True
+theorem ensureScroll_inv (s : St) (c : Nat) (ht : s.top < 2 ^ 63) (hc : c < 2 ^ 63) :
+    Inv (ensureScroll { s with cursor := c }) := by
+  unfold ensureScroll
+  simp only []
+  split
+  · rename_i h
+    exact ⟨ht, fun _ => Nat.le_of_lt h, hc⟩
+  · exact ⟨hc, fun _ => Nat.le_refl _, hc⟩
 
-theorem OpOk1.toOpOk {op : Op} (h : OpOk1 op) : OpOk op := by
-  cases op <;> first | exact h | exact ⟨h.1, h.2.1⟩ | trivial
+theorem init_inv : Inv init := ⟨by decide, (fun h => by cases h), by decide⟩
 
-theorem ensureScroll_inv4 (hs : List Nat) (s : St) (c : Nat) (hi : Inv4 hs s) (hc : c < 2 ^ 63) :
-    Inv4 hs (ensureScroll { s with cursor := c }) := by
-  refine ⟨ensureScroll_inv3 hs s c hi.inv3 hc, ?_, ?_⟩
-  · unfold ensureScroll; simp only []; split
-    · exact hi.off_nonneg
-    · exact Int.le_refl 0
-  · unfold ensureScroll; simp only []; split
-    · exact hi.off_in
-    · exact Or.inl rfl
-
-theorem init_inv4 (hs : List Nat) : Inv4 hs init := ⟨init_inv3 hs, Int.le_refl 0, Or.inl rfl⟩
-
-theorem step_inv4 (F : Facts) (hF : F.cursorGuard = true) (hS : F.insertStops = true)
-    (cfg : Cfg) (hgap : cfg.gap = 0)
-    (hs : List Nat) (hlen : hs.length < 2 ^ 63) (s : St) (op : Op) (hi : Inv4 hs s) (ho : OpOk1 op) :
-    ∃ s', step F cfg hs s op = .ok s' ∧ Inv4 hs s' := by
+theorem step_inv (cfg : Cfg) (hgap : 0 ≤ cfg.gap) (hs : List Nat) (hlen : hs.length < 2 ^ 63)
+    (s : St) (op : Op) (hi : Inv s) (ho : OpOk op) :
+    ∃ s', step Facts.fixed cfg hs s op = .ok s' ∧ Inv s' := by
   cases op with
-  | setCursor c => exact ⟨_, rfl, ensureScroll_inv4 hs s c hi ho⟩
+  | setCursor c => exact ⟨_, rfl, ensureScroll_inv s c hi.top_ok ho⟩
   | next =>
     refine ⟨(nextItem hs s).1, rfl, ?_⟩
-    have hu : uadd s.cursor 1 = s.cursor + 1 := by have := hi.inv3.cur_ok; unfold uadd U; omega
+    have hu : uadd s.cursor 1 = s.cursor + 1 := by have := hi.cur_ok; unfold uadd U; omega
     unfold nextItem
     rw [hu]
     cases hb : builder hs (s.cursor + 1) with
     | none => exact hi
     | some h =>
       have : s.cursor + 1 < hs.length := getElem?_lt hb
-      exact ensureScroll_inv4 hs s _ hi (by omega)
+      exact ensureScroll_inv s _ hi.top_ok (by omega)
   | prev =>
     refine ⟨(prevItem hs s).1, rfl, ?_⟩
     unfold prevItem
     split
     · exact hi
     · rename_i h0
-      have hu : usub s.cursor 1 = s.cursor - 1 := usub_le (by omega) hi.inv3.cur_ok
+      have hu : usub s.cursor 1 = s.cursor - 1 := usub_le (by omega) hi.cur_ok
       rw [hu]
       cases hb : builder hs (s.cursor - 1) with
       | none => exact hi
-      | some h => exact ensureScroll_inv4 hs s _ hi (by have := hi.inv3.cur_ok; omega)
-  | wheelDown =>
-    exact ⟨_, rfl, ⟨hi.inv3.top_ok, hi.inv3.wants_ok, hi.inv3.cur_ok⟩, hi.off_nonneg, hi.off_in⟩
+      | some h => exact ensureScroll_inv s _ hi.top_ok (by have := hi.cur_ok; omega)
+  | wheelDown => exact ⟨_, rfl, hi.top_ok, hi.wants_ok, hi.cur_ok⟩
   | wheelUp =>
     refine ⟨(wheelUp s).1, rfl, ?_⟩
     unfold wheelUp
     split
-    · exact ⟨⟨hi.inv3.top_ok, hi.inv3.wants_ok, hi.inv3.cur_ok⟩, hi.off_nonneg, hi.off_in⟩
+    · exact ⟨hi.top_ok, hi.wants_ok, hi.cur_ok⟩
     · exact hi
-  | pending k =>
-    exact ⟨_, rfl, ⟨hi.inv3.top_ok, hi.inv3.wants_ok, hi.inv3.cur_ok⟩, hi.off_nonneg, hi.off_in⟩
+  | pending k => exact ⟨_, rfl, hi.top_ok, hi.wants_ok, hi.cur_ok⟩
   | draw W H =>
-    obtain ⟨s', cs, he, hi'⟩ := draw_inv4 F hF hS cfg hgap hs hlen s W H ho.1 ho.2.1 ho.2.2 hi
+    obtain ⟨s', cs, he, hi', _⟩ := draw_inv cfg hgap hs hlen s W H ho.1 ho.2 hi
     exact ⟨s', by simp [step, he], hi'⟩
 
-theorem run_inv4 (F : Facts) (hF : F.cursorGuard = true) (hS : F.insertStops = true)
-    (cfg : Cfg) (hgap : cfg.gap = 0)
-    (hs : List Nat) (hlen : hs.length < 2 ^ 63) : ∀ (ops : List Op) (s : St), Inv4 hs s →
-    (∀ op ∈ ops, OpOk1 op) → ∃ s', run F cfg hs s ops = .ok s' ∧ Inv4 hs s'
-  | [], s, hi, _ => ⟨s, rfl, hi⟩
-  | op :: ops, s, hi, ho => by
-    obtain ⟨s1, he, hi1⟩ := step_inv4 F hF hS cfg hgap hs hlen s op hi (ho op List.mem_cons_self)
-    obtain ⟨s2, he2, hi2⟩ := run_inv4 F hF hS cfg hgap hs hlen ops s1 hi1 (fun o h => ho o (List.mem_cons_of_mem _ h))
-    exact ⟨s2, by simp [run, he, he2], hi2⟩
+/-- Operations of a history with item replacement that a sane caller issues: cursors below 2^63,
+    bounded draw contexts, fewer than 2^63 items. -/
+def HOpOk : HOp → Prop
+  | .op o => OpOk o
+  | .items hs => hs.length < 2 ^ 63
 
-/-- A state satisfying `Inv4` with nothing pending is settled (when the list has items). -/
-theorem inv4_settled (hs : List Nat) (s : St) (hi : Inv4 hs s) (hp : s.pending = 0) (hn : 0 < hs.length) :
-    Settled hs s := by
-  refine ⟨hp, hi.off_nonneg, ?_⟩
-  rcases hi.off_in with h | ⟨ht, h1, h2⟩
-  · have : s.top < hs.length := by rcases hi.inv3.top_ok with h' | h' <;> omega
-    exact ⟨hs[s.top], List.getElem?_eq_getElem this, by rw [h]; omega⟩
-  · exact ⟨ht, h1, by omega⟩
+theorem runH_inv (cfg : Cfg) (hgap : 0 ≤ cfg.gap) : ∀ (ops : List HOp) (hs : List Nat) (s : St),
+    hs.length < 2 ^ 63 → Inv s → (∀ op ∈ ops, HOpOk op) →
+    ∃ hs' s', runH Facts.fixed cfg hs s ops = .ok (hs', s') ∧ Inv s' ∧ hs'.length < 2 ^ 63
+  | [], hs, s, hl, hi, _ => ⟨hs, s, rfl, hi, hl⟩
+  | .items hs' :: ops, hs, s, _, hi, ho => by
+    have h1 : HOpOk (.items hs') := ho _ List.mem_cons_self
+    obtain ⟨a, b, e, r⟩ := runH_inv cfg hgap ops hs' s h1 hi (fun o h => ho o (List.mem_cons_of_mem _ h))
+    exact ⟨a, b, by simp [runH, e], r⟩
+  | .op o :: ops, hs, s, hl, hi, ho => by
+    obtain ⟨s1, he, hi1⟩ := step_inv cfg hgap hs hl s o hi (ho _ List.mem_cons_self)
+    obtain ⟨a, b, e, r⟩ := runH_inv cfg hgap ops hs s1 hl hi1 (fun o h => ho o (List.mem_cons_of_mem _ h))
+    exact ⟨a, b, by simp [runH, he, e], r⟩
+
+/-- A history without item replacement is a special history. -/
+theorem run_eq_runH (F : Facts) (cfg : Cfg) (hs : List Nat) : ∀ (ops : List Op) (s : St),
+    runH F cfg hs s (ops.map HOp.op) = (match run F cfg hs s ops with | .ok s' => .ok (hs, s') | .error e => .error e)
+  | [], s => rfl
+  | op :: ops, s => by
+    simp only [List.map_cons, runH, run]
+    cases step F cfg hs s op with
+    | error e => rfl
+    | ok s' => exact run_eq_runH F cfg hs ops s'
+
+/-- With a fixed builder the top index refers to an existing item (or is 0) at every point. -/
+theorem step_inv_top (cfg : Cfg) (hgap : 0 ≤ cfg.gap) (hs : List Nat) (hlen : hs.length < 2 ^ 63)
+    (s : St) (op : Op) (hi : Inv s) (ht : s.top = 0 ∨ s.top < hs.length) (ho : OpOk op) :
+    ∃ s', step Facts.fixed cfg hs s op = .ok s' ∧ Inv s' ∧ (s'.top = 0 ∨ s'.top < hs.length) := by
+  obtain ⟨s', he, hi'⟩ := step_inv cfg hgap hs hlen s op hi ho
+  refine ⟨s', he, hi', ?_⟩
+  have hes : ∀ c, (ensureScroll { s with cursor := c }).top = 0 ∨ (ensureScroll { s with cursor := c }).top < hs.length := by
+    intro c; unfold ensureScroll; simp only []; split
+    · exact ht
+    · rename_i h; show c = 0 ∨ c < hs.length; omega
+  cases op with
+  | setCursor c =>
+    simp only [step, Except.ok.injEq] at he; subst he; exact hes c
+  | next =>
+    simp only [step, Except.ok.injEq] at he; subst he
+    unfold nextItem; split
+    · exact ht
+    · exact hes (uadd s.cursor 1)
+  | prev =>
+    simp only [step, Except.ok.injEq] at he; subst he
+    unfold prevItem; split
+    · exact ht
+    · split
+      · exact ht
+      · exact hes (usub s.cursor 1)
+  | wheelDown => simp only [step, Except.ok.injEq] at he; subst he; exact ht
+  | wheelUp => simp only [step, Except.ok.injEq] at he; subst he; unfold wheelUp; split <;> exact ht
+  | pending k => simp only [step, Except.ok.injEq] at he; subst he; exact ht
+  | draw W H =>
+    obtain ⟨s2, cs, hd, _, ht2, _⟩ := draw_inv cfg hgap hs hlen s W H ho.1 ho.2 hi
+    simp only [step, hd, Except.ok.injEq] at he
+    subst he; exact ht2
+
+theorem run_inv_top (cfg : Cfg) (hgap : 0 ≤ cfg.gap) (hs : List Nat) (hlen : hs.length < 2 ^ 63) :
+    ∀ (ops : List Op) (s : St), Inv s → (s.top = 0 ∨ s.top < hs.length) → (∀ op ∈ ops, OpOk op) →
+    ∃ s', run Facts.fixed cfg hs s ops = .ok s' ∧ Inv s' ∧ (s'.top = 0 ∨ s'.top < hs.length)
+  | [], s, hi, ht, _ => ⟨s, rfl, hi, ht⟩
+  | op :: ops, s, hi, ht, ho => by
+    obtain ⟨s1, he, hi1, ht1⟩ := step_inv_top cfg hgap hs hlen s op hi ht (ho op List.mem_cons_self)
+    obtain ⟨s2, he2, r⟩ := run_inv_top cfg hgap hs hlen ops s1 hi1 ht1 (fun o h => ho o (List.mem_cons_of_mem _ h))
+    exact ⟨s2, by simp [run, he, he2], r⟩
+
+/-- `NextItem` / `PrevItem` that return a command moved the cursor to an existing item `c` and then
+    called `ensureScroll`. -/
+theorem next_prev_cases (hs : List Nat) (s s1 : St) (hcu : s.cursor < 2 ^ 63)
+    (hmove : (nextItem hs s = (s1, true)) ∨ (prevItem hs s = (s1, true))) :
+    ∃ c, c < hs.length ∧ s1 = ensureScroll { s with cursor := c } ∧ s1.cursor = c := by
+  have cur_es : ∀ c, (ensureScroll { s with cursor := c }).cursor = c := by
+    intro c; unfold ensureScroll; simp only []; split <;> rfl
+  rcases hmove with h | h
+  · have hu : uadd s.cursor 1 = s.cursor + 1 := by unfold uadd U; omega
+    unfold nextItem at h
+    rw [hu] at h
+    cases hb : builder hs (s.cursor + 1) with
+    | none => rw [hb] at h; cases h
+    | some hc =>
+      rw [hb] at h
+      have e : s1 = ensureScroll { s with cursor := s.cursor + 1 } := (Prod.mk.inj h).1.symm
+      exact ⟨_, getElem?_lt hb, e, by rw [e]; exact cur_es _⟩
+  · unfold prevItem at h
+    by_cases h0 : s.cursor = 0
+    · rw [if_pos h0] at h; cases h
+    · rw [if_neg h0] at h
+      have hu : usub s.cursor 1 = s.cursor - 1 := usub_le (by omega) hcu
+      rw [hu] at h
+      cases hb : builder hs (s.cursor - 1) with
+      | none => rw [hb] at h; cases h
+      | some hc =>
+        rw [hb] at h
+        have e : s1 = ensureScroll { s with cursor := s.cursor - 1 } := (Prod.mk.inj h).1.symm
+        exact ⟨_, getElem?_lt hb, e, by rw [e]; exact cur_es _⟩
+
+/-- With a gap ≥ 0, contiguous children are pairwise in index order and do not overlap. -/
+theorem contig_pairwise {gap : Int} (hg : 0 ≤ gap) : ∀ (cs : List Child), Contig gap cs →
+    ∀ (i j : Nat) (ci cj : Child), i < j → cs[i]? = some ci → cs[j]? = some cj →
+      ci.idx < cj.idx ∧ ci.row + (ci.height : Int) + gap ≤ cj.row
+  | [], _, i, j, ci, cj, _, h, _ => by simp at h
+  | f :: rest, hc, 0, j, ci, cj, hij, hi, hj => by
+    simp at hi; subst hi
+    have h1 := contig_get_idx rest f hc j cj hj
+    have h2 := contig_get_gap hg rest f hc j cj hj (by omega)
+    exact ⟨by omega, h2⟩
+  | f :: rest, hc, i + 1, j + 1, ci, cj, hij, hi, hj => by
+    have hrest : Contig gap rest := by
+      cases rest with
+      | nil => trivial
+      | cons d r => exact hc.2
+    exact contig_pairwise hg rest hrest i j ci cj (by omega) (by simpa using hi) (by simpa using hj)
+  | f :: rest, _, i + 1, 0, _, _, hij, _, _ => by omega
+
+/-! ### the selection is shown — from ANY scroll state -/
+
+/-- After `SetCursor(c)` (more generally `ensureScroll` with the cursor at an existing item of height
+    ≥ 1) one `Draw` of the repaired code into a viewport of ≥ 1 row shows item `c` — from ANY state
+    with sane indices and no pending scroll: whatever top/offset were (stale after a replacement of
+    the items, beyond the end, inside a gap), for every gap and every builder. -/
+theorem ensureScroll_draw_visible (cfg : Cfg) (hs : List Nat) (hlen : hs.length < 2 ^ 63) (s : St) (c W H hc : Nat)
+    (hW : W ≠ 65535) (hH : H ≠ 65535) (hH1 : 1 ≤ H)
+    (ht : s.top < 2 ^ 63) (hp : s.pending = 0) (hcur : hs[c]? = some hc) (hc1 : 1 ≤ hc) :
+    ∃ s' cs, draw Facts.fixed cfg hs (ensureScroll { s with cursor := c }) W H = .ok (s', cs) ∧
+      ∃ ch ∈ cs, ch.idx = c ∧ ch.height = hc ∧ Visible H ch := by
+  have hcn : c < hs.length := getElem?_lt hcur
+  have hc63 : c < 2 ^ 63 := by omega
+  obtain ⟨s1, hs1⟩ : ∃ x, x = ensureScroll { s with cursor := c } := ⟨_, rfl⟩
+  have hi1 : Inv s1 := by rw [hs1]; exact ensureScroll_inv s c ht hc63
+  have hs1c : s1.cursor = c := by rw [hs1]; unfold ensureScroll; simp only []; split <;> rfl
+  have hs1p : s1.pending = 0 := by rw [hs1]; unfold ensureScroll; simp only []; split <;> exact hp
+  have hs1t : s1.top ≤ c := by
+    rw [hs1]; unfold ensureScroll; simp only []; split
+    · rename_i h; exact Nat.le_of_lt h
+    · exact Nat.le_refl _
+  have hs1w : s1.wantsCursor = false → s1.top = c ∧ s1.offset = 0 := by
+    rw [hs1]; unfold ensureScroll; simp only []; split
+    · intro h; cases h
+    · intro _; exact ⟨rfl, rfl⟩
+  rw [← hs1]
+  obtain ⟨sc, ah2, s2, cs0, cs1, cs2, s3, hsc, hsu, hcs1, dd1, dd2, hhead, hrv, c2, h2, hd2, t3, o3, cu3, pe3, len2, w3,
+    k2, k1, k6, htop2, hcur2, hwants, hpend, st3, hlen0, hdraw⟩ := draw_phases cfg hs hlen s1 W H hW hH hi1
+  rw [hs1c] at hcur2
+  have hsct : sc.top ≤ c := by omega
+  have hle2 : s2.top ≤ c := by omega
+  -- the cursor child is among the drawn children
+  have hlen1 : c - s2.top < cs1.length := by
+    by_cases hw : s1.wantsCursor = true
+    · have := drawDown_reaches cfg.gap s2.cursor H (hs.drop sc.top) sc.top ah2 cs0
+      rw [hcs1, hwants, hw]
+      simp only [List.length_drop] at this
+      rw [hcur2] at this ⊢
+      omega
+    · have hw' : s1.wantsCursor = false := by simpa using hw
+      obtain ⟨e1, e2⟩ := hs1w hw'
+      have hsceq : sc = s1 := k6 (Or.inr (by rw [e1]; exact hcn))
+      have hpos : ¬ (prologue sc).1 > 0 := by
+        rw [hsceq]; unfold prologue; simp only [hs1p, e2]; split <;> simp
+      have hnil : cs0 = [] := by
+        have := scrollUp_spec true cfg.gap hs _ _ ah2 s2 cs0 hsu
+          (by rw [(prologue_spec sc).1]; unfold U; omega) (fun h => absurd h hpos)
+        exact this.2.2.2.1 hpos
+      have e2' := st3 hnil
+      have hs2t : s2.top = c := by rw [e2', (prologue_spec sc).1, hsceq, e1]
+      rw [hs2t, hcs1, hnil, hsceq, e1]
+      have hdrop : hs.drop c = hs[c] :: hs.drop (c + 1) := List.drop_eq_getElem_cons hcn
+      rw [hdrop]
+      have := drawDown_length_ge cfg.gap s2.wantsCursor s2.cursor H (hs.drop (c + 1)) (c + 1) (ah2 + (hs[c] : Int) + cfg.gap)
+        ([] ++ [{ idx := c, row := ah2, height := hs[c] }])
+      simp only [drawDown]
+      split
+      · simp at this ⊢; omega
+      · split
+        · simp
+        · simp at this ⊢; omega
+  obtain ⟨ch, hchget⟩ : ∃ ch, cs1[c - s2.top]? = some ch := ⟨cs1[c - s2.top], by simp [hlen1]⟩
+  have hchmem : ch ∈ cs1 := List.mem_of_getElem? hchget
+  obtain ⟨f, tail, hcs1f⟩ : ∃ f tail, cs1 = f :: tail := by
+    cases cs1 with
+    | nil => simp at hlen1
+    | cons f tail => exact ⟨f, tail, rfl⟩
+  have hfi : f.idx = s2.top := hhead f (by rw [hcs1f]; rfl)
+  have hidx : ch.idx = c := by
+    have := contig_get_idx tail f (by rw [← hcs1f]; exact dd1) (c - s2.top) ch (by rw [← hcs1f]; exact hchget)
+    omega
+  have hheight : ch.height = hc := by
+    have := dd2 ch hchmem
+    rw [hidx, hcur] at this
+    exact (Option.some.inj this).symm
+  have hcc : cursorChild cs1 s2.cursor s2.top = .ok (some ch) := by
+    rw [hcur2]; exact cursorChild_hit cs1 _ _ ch hle2 hc63 hchget
+  refine ⟨_, cs2, hdraw, ?_⟩
+  by_cases hw : s2.wantsCursor = true
+  · obtain ⟨cs2', s3', hrev', c', hc'mem, hc'idx, hc'h, hvis⟩ :=
+      reveal_visible cs1 s2 H ch hH1 (by omega) hw hcc hchmem
+    rw [hrv] at hrev'
+    cases hrev'
+    exact ⟨c', hc'mem, hc'idx.trans hidx, hc'h.trans hheight, hvis⟩
+  · -- no wants-cursor request: the top is the cursor, offset 0, nothing pending: the child is at row 0
+    have hw1 : s1.wantsCursor = false := by rw [← hwants]; simpa using hw
+    obtain ⟨e1, e2⟩ := hs1w hw1
+    have hsceq : sc = s1 := k6 (Or.inr (by rw [e1]; exact hcn))
+    have hpro : prologue sc = (0, { s1 with pending := 0 }) := by
+      rw [hsceq]; unfold prologue; simp only [hs1p, e2]; split <;> simp
+    have hpos : ¬ (prologue sc).1 > 0 := by rw [hpro]; simp
+    have hsu' := hsu
+    unfold scrollUp at hsu'
+    rw [if_neg hpos] at hsu'
+    cases hsu'
+    have hrv' := hrv
+    unfold reveal at hrv'
+    rw [if_neg hw] at hrv'
+    cases hrv'
+    have hs2t : ({ s1 with pending := 0 } : St).top = c := e1
+    have h00 : c - (prologue sc).2.top = 0 := by rw [hpro]; show c - s1.top = 0; omega
+    rw [h00] at hchget
+    have hhd : cs1.head? = some ch := by rw [hcs1f] at hchget ⊢; simpa using hchget
+    rw [hcs1] at hhd
+    have hrow : ch.row = (prologue sc).1 := (drawDown_head _ _ _ _ _ _ _ ch hhd).2
+    rw [hpro] at hrow
+    refine ⟨ch, hchmem, hidx, hheight, ?_⟩
+    unfold Visible
+    simp only [] at hrow
+    omega
 
 end VaxisModel.Lemmas.DynList
